@@ -338,26 +338,27 @@ def wireInstr (call : String → Value → Bool → W) (lens : String → Option
   | .switch f cases, st =>
     let fv := obj.attr f
     let data := obj.attr (f ++ "_data")
-    wireCases call lens fv data cases st
+    wireCases call lens lex fv data cases st
   | .chunked body, st =>
     if lex then wireInstrs call lens obj true body st
     else (wireInstrs call lens obj true body { st with san := true }).map (fun s => { s with san := false })
   | .brk, st => some { st with out := st.out ++ [0xFF], stopped := false }
 
 /-- the case body selected by the switch value (first matching value, else the default) -/
-def wireCases (call : String → Value → Bool → W) (lens : String → Option LenInfo) (fv data : Value) :
+def wireCases (call : String → Value → Bool → W) (lens : String → Option LenInfo) (lex : Bool) (fv data : Value) :
     List TCase → WSt → Option WSt
   | [], st => if data.isNone then some st else none   -- no case matches: there must be no case data
   | .mk cond cls body :: rest, st =>
     let hit : Bool := match cond with
       | none => true
       | some n => (match fv.toInt? with | some m => m == n | none => false)
-    if !hit then wireCases call lens fv data rest st
+    if !hit then wireCases call lens lex fv data rest st
     else if body.isEmpty then (if data.isNone then some st else none)
     else if data.cls? == some cls then
       -- a case body is a data structure of its own: own optional chain, own dummy rule, own length
-      -- fields; the mode it starts in is the current one and is restored afterwards
-      (wireInstrs call (lensOf body) data false body { san := st.san }).map (fun s => { st with out := st.out ++ s.out })
+      -- fields; the mode it starts in is the current one and is restored afterwards.  It is lexically
+      -- inside whatever chunked section the switch sits in.
+      (wireInstrs call (lensOf body) data lex body { san := st.san }).map (fun s => { st with out := st.out ++ s.out })
     else none
 
 /-- the length fields declared in a body -/
@@ -493,7 +494,7 @@ def readInstr (call : RCall) (lex : Bool) : TInstr → RSt → Except RErr RSt
        | .ok (s', vs) => .ok (s'.bind name (.tuple vs)))
   | .dummy ty _, s =>
     if s.r.pos == s.start then (readScalar call s ty).map (fun (r, _) => { s with r := r }) else .ok s
-  | .switch f cases, s => readCases call (s.get f) (f ++ "_data") cases (s.bind (f ++ "_data") .none)
+  | .switch f cases, s => readCases call lex (s.get f) (f ++ "_data") cases (s.bind (f ++ "_data") .none)
   | .chunked body, s =>
     if lex then readInstrs call true body s
     else
@@ -503,18 +504,18 @@ def readInstr (call : RCall) (lex : Bool) : TInstr → RSt → Except RErr RSt
        | .ok s' => .ok { s' with r := (s'.r.step (.setChunked false)).1 })
   | .brk, s => .ok { s with r := nextChunkA s.r }
 
-def readCases (call : RCall) (fv : Value) (dataName : String) : List TCase → RSt → Except RErr RSt
+def readCases (call : RCall) (lex : Bool) (fv : Value) (dataName : String) : List TCase → RSt → Except RErr RSt
   | [], s => .ok s
   | .mk cond cls body :: rest, s =>
     let hit : Bool := match cond with
       | none => true
       | some n => (match fv.toInt? with | some m => m == n | none => false)
-    if !hit then readCases call fv dataName rest s
+    if !hit then readCases call lex fv dataName rest s
     else if body.isEmpty then .ok (s.bind dataName .none)
     else
       -- the case body is read as a data structure of its own, in the current mode (restored after)
       let mode := s.r.chunked
-      match readInstrs call false body { r := s.r, start := s.r.pos } with
+      match readInstrs call lex body { r := s.r, start := s.r.pos } with
       | .error e => .error e
       | .ok cs =>
         let r' := (cs.r.step (.setChunked mode)).1
